@@ -211,4 +211,11 @@ Definition show_derived (s : sps) : list string :=
     "l2mfn=" ++ show_sout show_N (log2_max_frame_num s);
     "wmbs=" ++ show_sout show_N (pic_width_in_mbs s);
     "hmu=" ++ show_sout show_N (pic_height_in_map_units s);
-    "psmu=" ++ show_sout show_N (pic_size_in_map_units s) ].
+    "psmu=" ++ show_sout show_N (pic_size_in_map_units s);
+    "sar=" ++ match vui_parameters_ s with
+              | Some v => match aspect_ratio_info_ v with
+                          | Some a => match aspect_get a with Some (w, h) => show_N w ++ ":" ++ show_N h | None => "None" end
+                          | None => "-"
+                          end
+              | None => "-"
+              end ].
